@@ -75,7 +75,7 @@ type manyOpenCase struct {
 func manyOpenCases(thorough bool) []manyOpenCase {
 	ks := []int{3, 20, 100}
 	if thorough {
-		ks = []int{2, 3, 8, 20, 65, 100, 200}
+		ks = []int{2, 8, 20, 65, 200}
 	}
 	var l []manyOpenCase
 	for _, k := range ks {
@@ -87,7 +87,7 @@ func manyOpenCases(thorough bool) []manyOpenCase {
 							continue
 						}
 						l = append(l, manyOpenCase{K: k, Order: order, Client: cl, First: first, Closers: closers})
-						if thorough || (first == 1 && closers == "one-goroutine") {
+						if first == 1 && (thorough || closers == "one-goroutine") {
 							l = append(l, manyOpenCase{K: k, Order: order, Client: cl, First: first, Closers: closers, Refused: true})
 						}
 					}
